@@ -368,15 +368,25 @@ func checkC08(c *Check) {
 	// ---- R3 override bookkeeping
 	const r3 = "C08.R3 OverrideAddr/OriginalAddr are written only in initConn on the `message address != dialled address` edge; the reply loop reports OriginalAddr when set"
 	var dialCall *ssa.Call
-	allInstrs(initConn, func(in ssa.Instruction) {
-		if call, ok := in.(*ssa.Call); ok && !call.Call.IsInvoke() && staticCallee(call) == nil {
-			if ap := accessPath(call.Call.Value); len(ap.Fields) == 1 && ap.Fields[0].Name() == "DialFunc" {
-				dialCall = call
+	// initConn, or the helper of its package the dialling part was moved into
+	dialFn := initConn
+	for _, g := range helperGroup(p, initConn, func(f *ssa.Function) bool { return fnPkg(f) == fnPkg(initConn) }) {
+		allInstrs(g, func(in ssa.Instruction) {
+			if call, ok := in.(*ssa.Call); ok && dialCall == nil && !call.Call.IsInvoke() && staticCallee(call) == nil {
+				if ap := accessPath(call.Call.Value); len(ap.Fields) == 1 && ap.Fields[0].Name() == "DialFunc" {
+					dialCall, dialFn = call, g
+				}
 			}
+		})
+	}
+	var firstMsg ssa.Value
+	for _, prm := range dialFn.Params {
+		if n := namedOf(prm.Type()); n != nil && n.Obj().Name() == "UDPMessage" {
+			firstMsg = prm
 		}
-	})
-	if dialCall == nil {
-		c.Unres("call of e.DialFunc in initConn")
+	}
+	if dialCall == nil || firstMsg == nil {
+		c.Unres("call of e.DialFunc in initConn (or a helper of it) with the first message as a parameter")
 	} else {
 		actual := extractOf(dialCall, 1)
 		changed := func(cond ssa.Value, pol bool) bool {
@@ -386,7 +396,7 @@ func checkC08(c *Check) {
 			}
 			isMsgAddr := func(v ssa.Value) bool {
 				ap := accessPath(v)
-				return len(ap.Fields) == 1 && ap.Fields[0].Name() == "Addr" && ap.Root == ssa.Value(initConn.Params[1])
+				return len(ap.Fields) == 1 && ap.Fields[0].Name() == "Addr" && ap.Root == firstMsg
 			}
 			return actual != nil && ((isMsgAddr(b.X) && resolve(b.Y) == actual) || (isMsgAddr(b.Y) && resolve(b.X) == actual))
 		}
@@ -398,13 +408,13 @@ func checkC08(c *Check) {
 				}
 				n++
 				key := "C08.R3:store:" + f.Name() + ":" + fnName(fr.Fn)
-				good := fr.Fn == initConn && guardedBy(fr.Instr, changed)
+				good := fr.Fn == dialFn && guardedBy(fr.Instr, changed)
 				if good {
 					if f == fOverride {
 						good = resolve(fr.Val) == actual
 					} else {
 						ap := accessPath(fr.Val)
-						good = len(ap.Fields) == 1 && ap.Fields[0].Name() == "Addr" && ap.Root == ssa.Value(initConn.Params[1])
+						good = len(ap.Fields) == 1 && ap.Fields[0].Name() == "Addr" && ap.Root == firstMsg
 					}
 				}
 				c.Req(good, key, r3, p.InstrPos(fr.Instr), f.Name()+" written outside the address-changed edge of initConn or with the wrong value")
@@ -413,7 +423,7 @@ func checkC08(c *Check) {
 		}
 		// message address passed to the dial is the first message's
 		ap := accessPath(dialCall.Call.Args[0])
-		c.Req(len(ap.Fields) == 1 && ap.Fields[0].Name() == "Addr" && ap.Root == ssa.Value(initConn.Params[1]), "C08.R3:dial-arg", r3, p.InstrPos(dialCall), "DialFunc is not given the first message's address")
+		c.Req(len(ap.Fields) == 1 && ap.Fields[0].Name() == "Addr" && ap.Root == firstMsg, "C08.R3:dial-arg", r3, p.InstrPos(dialCall), "DialFunc is not given the first message's address")
 	}
 	// reply loop: Addr of outgoing message is ReadFrom's address or OriginalAddr when non-empty
 	{
